@@ -178,7 +178,8 @@ impl ContentDecoder {
     fn feed_eof(&mut self) -> io::Result<Option<Bytes>> {
         match self {
             #[cfg(feature = "compress-brotli")]
-            ContentDecoder::Brotli(ref mut decoder) => match decoder.flush() {
+            // `close` (unlike `flush`) fails when the brotli stream is not complete
+            ContentDecoder::Brotli(ref mut decoder) => match decoder.close() {
                 Ok(()) => {
                     let b = decoder.get_mut().take();
 
